@@ -282,6 +282,20 @@ theorem sum_waveform_peaks (dt : Int) (toPe : List Rat) (nCh : Nat) (peaks out :
   · simp only [he, if_false, Bool.false_eq_true] at h
     exact sumLoop_forall dt toPe nCh peaks hits out h
 
+/-- **area = Σ hit contributions.** For time-sorted hits on the sample grid of the peak (each carrying its
+`length` samples) the area that `sum_waveform` assigns to a peak is the sum over ALL hits of their definitional
+contribution — the samples lying inside `[time, time + length·dt)`, times `to_pe` of the channel
+(`contribution`); hits before the first contributing one and behind the `break` contribute nothing. -/
+theorem sum_equals_hit_contributions (dt : Int) (toPe : List Rat) (nCh : Nat) (p q : Peak) (hits hits' : List Hit)
+    (buf : List Rat) (hdt : 0 < dt)
+    (hal : ∀ h ∈ hits, ∃ s : Int, h.time = p.time + s * dt) (hwl : ∀ h ∈ hits, (h.wave.length : Int) = h.length)
+    (hsort : hits.Pairwise (fun a b => a.time ≤ b.time))
+    (hfc : firstContributing p dt hits = some hits') (h : sumOnePeak dt toPe nCh p hits' = .ok (q, buf)) :
+    q.area = (hits.map (contribution p dt toPe)).sum :=
+  sumOnePeak_contributions dt toPe nCh p q hits hits' buf hdt hal hwl hsort hfc h
+
+example : contribution ⟨0, 6, 1, 0, [0, 0], 0, 0, [0, 0, 0, 0]⟩ 1 [1, 2] ⟨4, 3, 1, 1, 6, [1, 2, 3]⟩ = 6 := by decide +kernel
+
 /-- **downsample_counterexample** (D11): a peak of 5 samples, 4-sample buffer, one hit of 7 in the last sample:
 `sum_waveform` returns area 7 and an all-zero waveform of 2 samples. -/
 theorem downsample_counterexample :
@@ -383,13 +397,15 @@ example : computeIndexOfFraction [1, 0, 3] 3 4 [1/4, 1/2, 1] = [1, 7/3, 3] := by
 
 /-- **hdr_spec_partial.** FULL statement wanted: for every desired fraction `f` the reported intervals are the
 maximal runs of the SMALLEST level set `{i : data[i] > v}` (`v` a sample value) whose mass — above `v` when
-`only_upper_part` — is at least `f·Σdata`, and the amplitude is the interpolated height.
+`only_upper_part` — is at least `f·Σdata`, all `-1` if they do not fit into the buffer, and the amplitude is the
+interpolated height.
 Proved part (all inputs): one row per fraction; every row is the whole range `[0, n)` or stems from a selection
-`max_to_min[:j]`, `1 ≤ j < n` (`hdr_rows`), and for every such selection (`hdr_region`) the reported runs cover
-exactly the selected indices, are non-empty and maximal, no unselected sample is higher than a selected one
-and the selection together with the rest is a permutation of all indices.
-Missing: that `j` is the first level whose mass suffices, and the amplitude formula (both are checked by the
-oracle on the real code, amplitudes with tolerance 1e-5). -/
+`max_to_min[:j]`, `1 ≤ j < n`; for every such selection the row has exactly `_buffer_size` slots and is — when
+the maximal runs fit — those runs followed by zero slots, and all `-1` when there are more runs than slots
+(`hdrRow_spec`, the code after the fix of D30); the runs cover exactly the selected indices, are non-empty and
+maximal; no unselected sample is higher than a selected one; selection + rest is a permutation of all indices.
+Missing: that `j` is the FIRST level whose mass suffices, and the amplitude formula (both are checked by the
+definitional oracle on the real code, amplitudes with tolerance 1e-5). -/
 theorem hdr_spec_partial (data fractions : List Rat) (upper : Bool) (bufSize : Nat) (rows : List (List (Int × Int) × Rat))
     (h : highestDensityRegion data fractions upper bufSize = .ok rows) :
     rows.length = fractions.length ∧
@@ -397,11 +413,23 @@ theorem hdr_spec_partial (data fractions : List Rat) (upper : Bool) (bufSize : N
       row.1 = ((0 : Int), (data.length : Int)) :: List.replicate (bufSize - 1) ((0 : Int), (0 : Int))) ∧
     (∀ j, let order := maxToMin data
           let ind := sortNat (order.take j)
+          (hdrRow bufSize ind).length = bufSize ∧
+          ((runsOf ind).length ≤ bufSize → hdrRow bufSize ind =
+            ((runsOf ind).map fun r => ((r.1 : Int), (r.2 : Int))) ++ List.replicate (bufSize - (runsOf ind).length) (0, 0)) ∧
+          (bufSize < (runsOf ind).length → hdrRow bufSize ind = List.replicate bufSize (-1, -1)) ∧
           runIndices (runsOf ind) = ind ∧ RunsSeparated (runsOf ind) ∧ ind.Perm (order.take j) ∧
           (∀ a ∈ order.take j, ∀ b ∈ order.drop j, data.getD b 0 ≤ data.getD a 0) ∧
-          (order.take j ++ order.drop j).Perm (List.range data.length)) :=
-  ⟨(hdr_rows data fractions upper bufSize rows h).1, (hdr_rows data fractions upper bufSize rows h).2,
-   fun j => hdr_region data j⟩
+          (order.take j ++ order.drop j).Perm (List.range data.length)) := by
+  refine ⟨(hdr_rows data fractions upper bufSize rows h).1, (hdr_rows data fractions upper bufSize rows h).2, ?_⟩
+  intro j
+  obtain ⟨r1, r2, r3, r4, r5⟩ := hdr_region data j
+  obtain ⟨s1, s2, s3⟩ := hdrRow_spec bufSize (sortNat ((maxToMin data).take j))
+  exact ⟨s1, s2, s3, r1, r2, r3, r4, r5⟩
+
+/-- before the fix of D30 the buffer check was `len(gaps) > _buffer_size`: three intervals went into a
+two-slot buffer (an out-of-bounds write in the real code) -/
+theorem hdr_buffer_old_counterexample :
+    (hdrRowGen false 2 [0, 2, 4]).length = 3 ∧ hdrRowGen true 2 [0, 2, 4] = [(-1, -1), (-1, -1)] := by decide
 
 example : ((highestDensityRegion [1, 2, 6, 3, 1] [1/2, 4/5] false 3).toOption.map (·.map (·.1)))
     = some [[(2, 4), (0, 0), (0, 0)], [(1, 4), (0, 0), (0, 0)]] := by decide +kernel
